@@ -51,13 +51,14 @@ type Monitor interface {
 }
 
 type Scenario struct {
-	D        *Desc
-	Alpha    []Sym
-	axisOrd  map[int]int       // alphabet index -> axis ordinal
-	axisDesc map[int]*AxisDesc // alphabet index -> description in the DEFAULT mapping holding it
-	NewMons  func(s *Scenario, w *worker) []Monitor
-	Repeat   bool // offer key-repeat probes
-	MaxState int
+	D          *Desc
+	Alpha      []Sym
+	axisOrd    map[int]int       // alphabet index -> axis ordinal
+	axisDesc   map[int]*AxisDesc // alphabet index -> description in the DEFAULT mapping holding it
+	NewMons    func(s *Scenario, w *worker) []Monitor
+	Repeat     bool // offer key-repeat probes
+	BeyondExit bool // keep exploring after the exit signal was raised (sequence keys released and completed again)
+	MaxState   int
 }
 
 type node struct {
@@ -393,7 +394,7 @@ func (e *Explorer) expand(w *worker, n *node, ev Event, depth int32) *node {
 	post, drv, swallowed := e.refStep(n.ref, n.drv, ev)
 	child.ref, child.drv = post, drv
 	child.dump = device.VerifDump(child.dev)
-	child.term = swallowed || nsig > 0
+	child.term = (swallowed || nsig > 0) && !s.BeyondExit // the application ends after the signal; C14 looks at what the device does meanwhile too
 	child.mons = make([]Monitor, len(n.mons))
 	violated := false
 	ctx := &StepCtx{S: s, Ev: ev, Sym: sym, Pre: n.ref, Post: post, PreDrv: n.drv, PostDrv: drv, Msgs: msgs, Sigs: nsig,
@@ -567,10 +568,27 @@ func (e *Explorer) replayOnce(w *worker, n *node, id int32, deadline time.Durati
 			}
 		}
 	}
+	if e.S.NewMons != nil && checkCleanupCollision && s.D.Mode != "off" {
+		// managed modes: one Note Off per sounding (channel, pitch), however many keys hold it when the device goes away
+		seen := map[[2]byte]int{}
+		for _, m := range all[n1:] {
+			if len(m) == 3 && (m[0]&0xf0 == 0x80 || (m[0]&0xf0 == 0x90 && m[2] == 0)) {
+				seen[[2]byte{m[0] & 0x0f, m[1]}]++
+			}
+		}
+		for k, n := range seen {
+			if n > 1 {
+				e.Res.Violate("cleanup-collision-rule", s.D.Name+"/"+s.D.Mode, fmt.Sprintf("mode %s: the disconnect clean-up sent %d Note Offs for ch%d/%d (exactly one is due, at the end of the last holder)", s.D.Mode, n, k[0]+1, k[1]),
+					map[string]interface{}{"scenario": s.D.Name, "mode": s.D.Mode, "history": hist, "cleanup_output": msgStrings(all[n1:]), "toml": s.D.TOML()})
+				break
+			}
+		}
+	}
 	return true
 }
 
 var checkDisconnect = true
+var checkCleanupCollision = false
 
 func safeStep(d *device.Device, in *input.InputEvent) (p string) {
 	defer func() {
